@@ -322,6 +322,8 @@ def self_consistency_failures(st, name, heavy):
             bad.append(f"{name}: variance {m[1]!r} but the density's own variance is {o[1]!r}")
         if abs(m[2] - o[2]) > 0.3:
             bad.append(f"{name}: skewness {m[2]:.3f} vs own {o[2]:.3f}")
+        if abs(m[3] - o[3]) > 1.0:
+            bad.append(f"{name}: excess kurtosis {m[3]:.3f} vs own {o[3]:.3f}")
     return bad
 
 
